@@ -452,9 +452,10 @@ impl Server {
         self.parser(&params.text_document.uri.to_key(&self.base_path))
             .and_then(|parser| {
                 parser.link_at(position).and_then(|link| {
+                    // no answer where the destination is not spelled out at the link itself
+                    // (reference-style links) or is not the name of a note (mail addresses)
                     parser
                         .url_range_at(position)
-                        .or_else(|| link.key_range())
                         .map(|range| PrepareRenameResponse::RangeWithPlaceholder {
                             range: to_range(range),
                             placeholder: link.url().unwrap_or("".to_string()),
